@@ -271,14 +271,28 @@ var pool []*inst // most recently used last
 
 const poolMax = 12
 
+// sweepStale removes the database directories left behind by earlier runs: a directory is named
+// c01-<pid>-… and is stale once that process is gone (or, for the old naming, after half an hour).
 func sweepStale() {
-	ents, _ := os.ReadDir(tmpRoot())
+	root := tmpRoot()
+	if root == "" {
+		root = os.TempDir()
+	}
+	ents, _ := os.ReadDir(root)
 	for _, e := range ents {
 		if !strings.HasPrefix(e.Name(), "c01-") {
 			continue
 		}
+		f := strings.Split(e.Name(), "-")
+		if len(f) >= 3 {
+			if _, err := os.Stat("/proc/" + f[1]); err == nil {
+				continue // still running
+			}
+			os.RemoveAll(root + "/" + e.Name())
+			continue
+		}
 		if fi, err := e.Info(); err == nil && time.Since(fi.ModTime()) > 30*time.Minute {
-			os.RemoveAll(tmpRoot() + "/" + e.Name())
+			os.RemoveAll(root + "/" + e.Name())
 		}
 	}
 }
@@ -304,7 +318,7 @@ func newInst(sc *scenario, key string) (*inst, string) {
 	if root == "" {
 		root = os.TempDir()
 	}
-	dir, err := os.MkdirTemp(root, "c01-")
+	dir, err := os.MkdirTemp(root, fmt.Sprintf("c01-%d-", os.Getpid()))
 	if err != nil {
 		return nil, "err:tmp"
 	}
